@@ -12,7 +12,8 @@ EXPLANATION = ("R02.1 the matcher LogSpecification::enabled is a first-match dec
                "at most one element; R02.3 gate order of FlexiLogger::log (shared with R13.1): default channel iff (not brace or _Default) and "
                "enabled(level, effective target) and (no text filter or it matches the Display of the message), then line filter or primary "
                "writer; R02.4 global max level = max(spec.max_level(), every additional writer's max_log_level()) on build and on every change; "
-               "R02.5 enabled() never under-approximates log(); R02.6 update_from copies every field (a stale text filter would keep filtering). R02.7 specification and gate change together under the specification write lock (C12's rules R12.1-R12.4 shared).")
+               "R02.5 enabled() never under-approximates log(); R02.6 update_from copies every field (a stale text filter would keep filtering). R02.7 specification and gate change together under the specification write lock (C12's rules R12.1-R12.4 shared)."
+               " R02.8 (shared with R17.1/R17.3): parse() stores module names verbatim (split/trim/copy only) and takes every level from parse_level_filter.")
 ASSUMPTIONS = ["str::starts_with / regex semantics (std, regex)", "log::Level/LevelFilter documented order", "specifications name each module at most once (quantifier)"]
 NOT_DECIDED = ["regex semantics", "string semantics of starts_with", "specifications naming a module twice"]
 FLOORS = {'R02.1': 1, 'R02.2': 6, 'R02.3': 1, 'R02.4': 3, 'R02.5': 1, 'R02.6': 1}
